@@ -324,6 +324,17 @@ fn large_menu(kind: Kind, tier: Tier) -> Vec<(Cfg, usize)> {
             h.extend(gets(0, 3));
             h.extend(puts(12, 14));
             mk(c, h, &mut v);
+            // estimates at the top of their range: the probationary victim has been seen 16 times (counter 15 plus
+            // the doorkeeper bit), the window's next victim 15 times, the main cache is full - the admission contest
+            // has to tell 15 from 16
+            let mut c = Cfg::base(Kind::Wtlfu, &[1, 1, 1], 8);
+            c.samples = 64;
+            c.kh = KHKind::Identity;
+            let mut h: Vec<Op> = (0..16).map(|_| Op::Get(1)).collect();
+            h.push(Op::Put(1, 0));
+            h.extend((0..15).map(|_| Op::Get(3)));
+            h.extend([Op::Put(2, 0), Op::Put(2, 0), Op::Put(3, 0)]);
+            mk(c, h, &mut v);
         }
     }
     v
@@ -682,6 +693,25 @@ pub fn plan(prop: &str, tier: Tier) -> Vec<RunSpec> {
             }
         }
         "C17" => {
+            if !cfg!(feature = "std") {
+                // no_std flavour: its hash maps are hashbrown's, with their own raw-entry code paths; the SLRU and
+                // W-TinyLFU lock-steps are repeated there, including the leg with a different hasher per inner list
+                for k in [Kind::Slru, Kind::Wtlfu, Kind::TwoQ] {
+                    for (i, c) in small_menu(k, Tier::Quick).into_iter().enumerate().take(2) {
+                        let mut s = spec(c, obs_want());
+                        s.hashers = vec![HKind::SipB, HKind::Identity, HKind::Zero, HKind::Fnv];
+                        out.push(s);
+                        if i == 0 {
+                            let mut m = s_clone_mixed(&out.last().unwrap().cfg);
+                            m.mixed_hashers = true;
+                            let mut s2 = spec(m, obs_want());
+                            s2.hashers = vec![HKind::SipA];
+                            out.push(s2);
+                        }
+                    }
+                }
+                return out;
+            }
             {
                 // the eviction callback's view (order of departures) must not depend on the hasher either
                 let mut cb = raw(2, 1, 1);
